@@ -70,6 +70,33 @@ def quiet():
         yield
 
 
+@contextlib.contextmanager
+def parent_claims_last(timeout=15.):
+    """scheduling perturbation: on every `parallel.range` that is created outside a fork body, the calling process' first `__next__`
+    is delayed until another process has claimed an iteration (or the timeout expires).  The real `__init__` / `__next__` do the work;
+    a delay before a call is just one more legal schedule."""
+    from nutils import parallel
+    me = os.getpid()
+    orig_init, orig_next = parallel.range.__init__, parallel.range.__next__
+    def init(self, stop):
+        orig_init(self, stop)
+        self._c16flag = multiprocessing.RawValue('i', 0) if parallel.maxprocs.current > 1 and stop > 0 else None
+    def steered(self):
+        flag = getattr(self, '_c16flag', None)
+        if flag is not None and os.getpid() == me and not flag.value:
+            t_end = time.time() + timeout
+            while not flag.value and time.time() < t_end:
+                time.sleep(0.002)
+        v = orig_next(self)
+        if flag is not None: flag.value = 1
+        return v
+    parallel.range.__init__, parallel.range.__next__ = init, steered
+    try:
+        yield
+    finally:
+        parallel.range.__init__, parallel.range.__next__ = orig_init, orig_next
+
+
 # ------------------------------------------------------------------------------------------------ probe evaluable
 
 HOOK = [None]
@@ -465,7 +492,8 @@ def run(c):
             smp = topo.locate(g, pts, tol=1e-9, skip_missing=(mode == 'missing-skip'))
             return (smp.eval(geom), smp.npoints)
         def outcome(nprocs):
-            with quiet(), parallel.maxprocs(nprocs):
+            # corpus case 0: the missing first point is deterministically handed to a child (the parent's first claim waits for it)
+            with quiet(), parallel.maxprocs(nprocs), (parent_claims_last() if (iloc == 0 and nprocs > 1) else contextlib.nullcontext()):
                 try:
                     return canon(locate())
                 except Exception as e:
